@@ -325,7 +325,11 @@ func (w *fingerprintWriter) writeValue(v ast.Value) {
 		w.writeByte('f')
 		w.writeString(n.Value)
 	case *ast.StringValue:
+		// Free text: length-prefixed, so that no string content can imitate
+		// the delimiters of the bytes that follow it.
 		w.writeByte('s')
+		w.writeString(strconv.Itoa(len(n.Value)))
+		w.writeByte(':')
 		w.writeString(n.Value)
 	case *ast.BooleanValue:
 		w.writeByte('b')
